@@ -84,4 +84,16 @@ def amountsWalks : List (String × String) := [
   ("xact.cc:xact_base_t::finalize", "begin*1")
 ]
 
+/-- the comparators of the ordered containers keyed by a pointer.  Such a map is only safe when the comparator never
+    falls back to comparing the pointers themselves (equal names then merge into one entry - by design - instead of
+    being listed in heap-address order):
+    filters.h:totals_map             account_name_less: fullname only
+    output.h:accounts_report_map     account_compare: fullname only (the account_t* keys convert through account_t(parent))
+    output.h:commodities_report_map  commodity_compare: symbol only (the lots of one commodity share one entry) -/
+def comparators : List (String × String × String) := [
+  ("filters.h:totals_map", "name-only", "account_name_less|return left->fullname() < right->fullname();"),
+  ("output.h:accounts_report_map", "name-only", "account_compare|return (lhs.fullname().compare(rhs.fullname()) < 0);"),
+  ("output.h:commodities_report_map", "name-only", "commodity_compare|return (lhs->symbol().compare(rhs->symbol()) < 0);")
+]
+
 end Ledger.Pinned
